@@ -304,6 +304,8 @@ def map(
     if isinstance(resolution, int):
         resolution = {"x": resolution, "y": resolution}
     else:
+        # Work on a copy: the defaults must not be written into the caller's dict
+        resolution = dict(resolution)
         for xy in "xy":
             if xy not in resolution:
                 resolution[xy] = default_resolution
